@@ -296,6 +296,51 @@ def run(report, p):
                                 raise AnalysisError(f"{f.loc(rt)}: {f.name} repackages the read loop's result in a way this checker does not model: {show(a)[:120]}")
 
 
+    # ------------------------------------------------------------------ R1.9
+    r9 = report.rule(
+        "R1.9",
+        "argument roles at the hashing entry points: what is bound to a `*format*` parameter never originates from a path-typed command option / argument (click.Path), "
+        "and what is bound to a path parameter never originates from a format option (click.Choice over the supported formats)",
+        4,
+    )
+    from .common import commands as _cmds
+
+    typed = {}
+    for c in _cmds(p).values():
+        for pn, o in p.click_options(c).items():
+            d = norm(o["node"])
+            typed[(c.qual, pn)] = "path" if "click.Path" in d else ("format" if "click.Choice(ascmhl_supported_hashformats)" in d else None)
+    entry_q = [q for q in ("ascmhl.hasher.hash_file", "ascmhl.hasher.multiple_format_hash_file") if q in p.funcs]
+    for fq, f in sorted(p.funcs.items()):
+        if f.module.name in unshipped:
+            continue
+        for call, tg in p.calls[fq]:
+            for eq in entry_q:
+                if eq not in tg:
+                    continue
+                ef = p.funcs[eq]
+                r9.instance(f, call, norm(call)[:80])
+                for pn, arg in p.bind_args(ef, call).items():
+                    if arg is None or not any(arg is x for x in list(call.args) + [k.value for k in call.keywords]):
+                        continue
+                    want = "format" if "format" in pn else "path"
+                    kinds = set()
+                    for o in pr.origins(arg, f):
+                        full = pr.expand_params(o, depth=4)
+                        work = [full]
+                        while work:
+                            t = work.pop()
+                            if t[0] == "alt":
+                                work += list(t[1])
+                            elif t[0] == "elem":
+                                work.append(t[1])  # an element of a multi-valued option
+                            elif t[0] == "call" and t[1] in ("ext:os.path.join", "ext:os.path.abspath", "builtin:sorted", "builtin:list") and t[2]:
+                                work += list(t[2])  # the value itself, made absolute / ordered
+                            elif t[0] == "param" and typed.get((t[1], t[2])):
+                                kinds.add(typed[(t[1], t[2])])
+                    wrong = kinds - {want}
+                    r9.check(not (wrong and want not in kinds), f, call, f"`{norm(arg)}` is passed as `{pn}` of {ef.name} but originates from a {'/'.join(sorted(wrong))}-typed command option: path and format are swapped", construct=f"{ef.name}: {pn} <- {'/'.join(sorted(wrong))}-typed option")
+
     try:
         _r18()
     except AnalysisError as e:
